@@ -129,7 +129,7 @@ PROPS["C15"] = dict(
     design_ref="DESIGN.md §6 C15",
     rule="grammar-directed literals (digit counts 0..50, point at every position, magnitudes around 2^63/2^64, 12/13 decimals, signs) + junk stream (other ASCII, multi-byte UTF-8, two dots, inner signs, spaces) x 5 denominations x {unsigned, signed}; formatting on boundary and random values.",
     assumptions=["permissive grammar reading of DESIGN.md §8"],
-    gen_items=["amount.precision", "amount.denom_display", "amount.denom_fromstr"],
+    gen_items=["amount.precision", "amount.denom_display", "amount.denom_fromstr", "amount.parse."],
 )
 
 PROPS["C16"] = dict(
